@@ -138,7 +138,7 @@ fn gen_ty(c: &mut Case) -> LType {
 fn gen_col(c: &mut Case, len: usize) -> (LType, Vec<LValue>, ArrayRef) {
     let ty = gen_ty(c);
     let col = gen_column(&mut c.tape, &ty, true, len, &ValCfg::default());
-    let arr = realise(&mut c.tape, &ty, &col, true, &Lay::fancy());
+    let arr = realise(&mut c.tape, &ty, &col, true, &Lay { fancy: true, dict_value_nulls: true, slice_chance: 128 });
     c.class(format!("type:{}", ty.family()));
     (ty, col, arr)
 }
@@ -268,7 +268,7 @@ fn gen_parts(c: &mut Case, max_parts: usize) -> (LType, Vec<Vec<LValue>>, Vec<Ar
         let lens: Vec<usize> = (0..k).map(|_| c.tape.below(30)).collect();
         let total: usize = lens.iter().sum();
         let col = gen_column(&mut c.tape, &ty, true, total, &ValCfg::default());
-        let arr = realise(&mut c.tape, &ty, &col, true, &Lay::fancy());
+        let arr = realise(&mut c.tape, &ty, &col, true, &Lay { fancy: true, dict_value_nulls: true, slice_chance: 128 });
         let mut o = 0;
         for l in lens {
             cols.push(col[o..o + l].to_vec());
@@ -279,7 +279,7 @@ fn gen_parts(c: &mut Case, max_parts: usize) -> (LType, Vec<Vec<LValue>>, Vec<Ar
         for _ in 0..k {
             let l = if c.tape.chance(32) { sel_len(&mut c.tape).min(300) } else { c.tape.below(30) };
             let col = gen_column(&mut c.tape, &ty, true, l, &ValCfg::default());
-            let arr = realise(&mut c.tape, &ty, &col, true, &Lay::fancy());
+            let arr = realise(&mut c.tape, &ty, &col, true, &Lay { fancy: true, dict_value_nulls: true, slice_chance: 128 });
             cols.push(col);
             arrs.push(arr);
         }
@@ -401,7 +401,7 @@ fn sub_merge_n(c: &mut Case) -> CaseResult {
         let need = idx.iter().filter(|i| **i == Some(a)).count();
         let l = need + c.tape.below(3);
         let col = gen_column(&mut c.tape, &ty, true, l, &ValCfg::default());
-        arrs.push(realise(&mut c.tape, &ty, &col, true, &Lay::fancy()));
+        arrs.push(realise(&mut c.tape, &ty, &col, true, &Lay { fancy: true, dict_value_nulls: true, slice_chance: 128 }));
         cols.push(col);
     }
     let want = ref_merge_n(&cols, &idx);
